@@ -1,10 +1,12 @@
 mod bfs;
 mod common;
 mod gen;
+mod progs;
 mod refmodel;
 
 mod c01;
 mod c02;
+mod c03;
 mod c18;
 
 use common::*;
@@ -211,6 +213,7 @@ fn main() {
     let report = match id.as_str() {
         "C01" => c01::run(thorough),
         "C02" => c02::run(thorough),
+        "C03" => c03::run(thorough),
         "C18" => c18::run(thorough),
         _ => {
             eprintln!("unknown property id {}", id);
